@@ -387,3 +387,514 @@ Proof.
     + apply R_subject0. lia.
   - norm. rewrite forallb_app, R_out0. reflexivity.
 Qed.
+
+(* ---- the transactional prologue of execute under R ---- *)
+Lemma R_exec_guard : forall s p, R s p -> blocked p = false ->
+  exists s', exec_guard s = (Ok, s') /\ R s' (autobegin_spec p) /\ c_root s' <> None.
+Proof.
+  intros s p HR Hb. destruct (c_root s) as [r|] eqn:Hr.
+  - apply orb_false_elim in Hb. destruct Hb as [_ Hb].
+    exists s. rewrite (R_guard_ok _ _ _ HR Hr Hb). split; [auto|].
+    destruct (R_root_some _ _ _ HR Hr) as (nf & snap & Hst & _).
+    unfold autobegin_spec. rewrite Hst. destruct nf; cbn; (split; [auto|congruence]).
+  - destruct (R_new_root _ _ HR Hr Hb) as (s' & A & B & C).
+    pose proof Hb as Hb'. apply orb_false_elim in Hb'. destruct Hb' as [Hc Hx].
+    exists s'. unfold exec_guard. rewrite (R_closed _ _ HR), Hc, (R_pending_false _ _ HR).
+    unfold bind. rewrite (R_ctx_check _ _ HR), Hx. unfold autobegin_if_none, begin. rewrite Hr, A.
+    destruct (R_root_none _ _ HR Hr) as [Hst _]. unfold autobegin_spec. rewrite Hst.
+    split; [auto|split; [auto|congruence]].
+Qed.
+
+Lemma R_closed_root_none : forall s p, R s p -> p_closed p = true -> c_root s = None.
+Proof.
+  intros s p HR Hc. destruct (c_root s) eqn:Hr; auto.
+  destruct (R_root_some _ _ _ HR Hr) as (_ & _ & _ & _ & _ & _ & A & _).
+  rewrite (R_closed _ _ HR) in A. congruence.
+Qed.
+
+Lemma R_blocked_new_root : forall s p, R s p -> blocked p = true -> exists e, new_root s = (Raise e, s).
+Proof.
+  intros s p HR Hb. unfold new_root, bind. rewrite (R_ctx_check _ _ HR).
+  destruct (ctx_bad p) eqn:Hx; [eauto|]. unfold blocked in Hb. rewrite Hx, orb_false_r in Hb.
+  rewrite (R_closed _ _ HR), Hb. eauto.
+Qed.
+
+Lemma R_blocked_nested : forall s p, R s p -> blocked p = true -> exists e, begin_nested s = (Raise e, s).
+Proof.
+  intros s p HR Hb. unfold begin_nested, bind, autobegin_if_none, begin.
+  destruct (c_root s) eqn:Hr.
+  - unfold new_nested, bind. rewrite (R_ctx_check _ _ HR).
+    destruct (ctx_bad p) eqn:Hx; [eauto|]. unfold blocked in Hb. rewrite Hx, orb_false_r in Hb.
+    rewrite (R_closed_root_none _ _ HR Hb) in Hr. discriminate.
+  - destruct (R_blocked_new_root _ _ HR Hb) as [e ->]. eauto.
+Qed.
+
+Lemma R_blocked_ins : forall s p v, R s p -> blocked p = true -> exists e, ins v s = (Raise e, s).
+Proof.
+  intros s p v HR Hb. unfold ins, bind, exec_guard. rewrite (R_closed _ _ HR).
+  destruct (p_closed p) eqn:Hc; [eauto|]. rewrite (R_pending_false _ _ HR).
+  unfold bind. rewrite (R_ctx_check _ _ HR). unfold blocked in Hb. rewrite Hc in Hb. cbn in Hb. rewrite Hb. eauto.
+Qed.
+
+(* ---- cancelling the savepoint chain ---- *)
+Lemma cancel_chain : forall fuel k s fr sv, WF s -> chain s (Some k) fr sv -> c_nested s = Some k -> k < fuel ->
+  exists s', cancel fuel k s = (Ok, s') /\ same_but s s' /\ c_root s' = c_root s /\ c_nested s' = None /\
+    s_db s' = s_db s /\ s_out s' = s_out s /\
+    forall j, active j s' = active j s && negb (existsb (Nat.eqb j) (map fst fr)).
+Proof.
+  induction fuel; intros k s fr sv W Hch Hn Hk; [lia|].
+  rewrite cancel_unfold. unfold deact_nested. norm. rewrite Hn. cbn [opt_is]. rewrite Nat.eqb_refl.
+  norm. inversion Hch; subst.
+  set (s2 := set_nested (prev k s) (set_active k false s)).
+  assert (SB : same_but s s2) by (eapply sb_trans; [apply sb_set_active|apply sb_set_nested]).
+  assert (W2 : WF s2).
+  { unfold s2. rewrite <- (prev_set_active k k false s). apply WF_set_nested_prev, WF_set_active, W. }
+  assert (Hs2 : c_nested s2 = prev k s /\ c_root s2 = c_root s /\ s_db s2 = s_db s /\ s_out s2 = s_out s /\
+                forall j, active j s2 = active j s && negb (Nat.eqb j k)).
+  { unfold s2. repeat split; intros; norm; reflexivity. }
+  destruct Hs2 as (N2 & R2 & D2 & O2 & A2).
+  clearbody s2. destruct (prev k s) as [q|] eqn:Hp.
+  - assert (Hq : q < k) by (apply W; auto).
+    destruct (IHfuel q s2 fr0 sv2) as (s' & A & B & C & D & E & F & G); auto.
+    + eapply chain_sb; eauto.
+    + lia.
+    + exists s'. rewrite A.
+      split; [reflexivity|split; [eapply sb_trans; eauto|split; [congruence|split; [exact D|split; [congruence|split; [congruence|]]]]]].
+      intros j. rewrite G, A2. cbn [map fst existsb]. rewrite negb_orb, andb_assoc. reflexivity.
+  - match goal with H : chain s None _ _ |- _ => inversion H; subst end. exists s2.
+    split; [reflexivity|split; [exact SB|split; [exact R2|split; [exact N2|split; [exact D2|split; [exact O2|]]]]]].
+    intros j. rewrite A2. cbn. rewrite orb_false_r. reflexivity.
+Qed.
+
+Lemma cancel_nested_chain : forall s nf sv, WF s -> chain s (c_nested s) nf sv ->
+  exists s', cancel_nested s = (Ok, s') /\ same_but s s' /\ c_root s' = c_root s /\ c_nested s' = None /\
+    s_db s' = s_db s /\ s_out s' = s_out s /\
+    forall j, active j s' = active j s && negb (existsb (Nat.eqb j) (map fst nf)).
+Proof.
+  intros s nf sv W Hch. unfold cancel_nested. destruct (c_nested s) as [n|] eqn:Hn.
+  - eapply cancel_chain; eauto. inversion Hch; auto.
+  - inversion Hch; subst. exists s.
+    split; [reflexivity|split; [apply sb_refl|split; [reflexivity|split; [exact Hn|split; [reflexivity|split; [reflexivity|]]]]]].
+    intros. cbn. rewrite andb_true_r. reflexivity.
+Qed.
+
+Lemma existsb_ids : forall j (nf : list (nat * tables)),
+  existsb (Nat.eqb j) (map fst nf) = existsb (fun f => Nat.eqb (fst f) j) nf.
+Proof. induction nf; cbn; auto. rewrite IHnf, (Nat.eqb_sym j). reflexivity. Qed.
+
+Lemma existsb_in : forall j l, existsb (Nat.eqb j) l = true <-> In j l.
+Proof.
+  intros. rewrite existsb_exists. split.
+  - intros [x [A B]]. apply Nat.eqb_eq in B. subst. auto.
+  - intros. exists j. split; auto. apply Nat.eqb_refl.
+Qed.
+
+(* what ending the root transaction leaves behind: every object inactive, nothing installed *)
+Lemma root_tail : forall s p r s1 c d', R s p -> WF s -> c_root s = Some r ->
+  s1 = add_out (c, true) (set_db d' s) ->
+  exists s2 s3, cancel_nested s1 = (Ok, s2) /\ deact_root r s2 = (Ok, s3) /\
+    active r s2 = true /\ c_root s3 = Some r /\
+    same_but s s3 /\ c_nested s3 = None /\ s_db s3 = d' /\ s_out s3 = s_out s ++ [(c, true)] /\
+    forall j, active j s3 = false.
+Proof.
+  intros s p r s1 c d' HR W Hr ->.
+  destruct (R_root_some _ _ _ HR Hr) as (nf & snap & Hst & Hroot & Hch & Hact & Hcl & Hnin).
+  set (s1 := add_out (c, true) (set_db d' s)).
+  assert (SB1 : same_but s s1) by (eapply sb_trans; [apply sb_set_db|apply sb_add_out]).
+  assert (W1 : WF s1) by (apply WF_add_out, WF_set_db, W).
+  destruct (cancel_nested_chain s1 nf (saves (s_db s)) W1) as (s2 & A & B & C & D & E & F & G).
+  { unfold s1. norm. eapply chain_sb; eauto. }
+  assert (Ar : active r s2 = true).
+  { rewrite G. unfold s1. norm. rewrite Hact. cbn. apply negb_true_iff.
+    apply not_true_is_false. intro X. apply existsb_in in X. auto. }
+  exists s2, (set_active r false s2). split; [exact A|]. split.
+  { unfold deact_root. rewrite Ar. reflexivity. }
+  split; [exact Ar|]. split; [norm; rewrite C; unfold s1; norm; auto|].
+  split; [eapply sb_trans; [exact SB1|eapply sb_trans; [exact B|apply sb_set_active]]|].
+  split; [norm; auto|]. split; [norm; rewrite E; unfold s1; norm; reflexivity|].
+  split; [norm; rewrite F; unfold s1; norm; reflexivity|].
+  intros j. norm. rewrite G. unfold s1. norm. rewrite (R_active _ _ HR), (live_app_root _ _ _ _ _ Hst), existsb_ids.
+  rewrite (Nat.eqb_sym r j).
+  destruct (existsb _ nf), (Nat.eqb j r); reflexivity.
+Qed.
+
+Lemma R_root_end : forall s p s' (b : bool), R s p -> same_but s s' ->
+  c_root s' = None -> c_nested s' = None ->
+  s_db s' = (if b then mkDb (work (s_db s)) (work (s_db s)) [] else mkDb (committed (s_db s)) (committed (s_db s)) []) ->
+  (forall j, active j s' = false) -> forallb snd (s_out s') = true ->
+  R s' (if b then commit_all p else rollback_all p).
+Proof.
+  intros s p s' b HR SB Hr Hn Hd Ha Ho.
+  destruct b; apply (R_after s s' p _ HR SB); try reflexivity; auto.
+  - rewrite Hd. apply (R_work _ _ HR).
+  - rewrite Hd. apply (R_work _ _ HR).
+  - unfold frames. rewrite Hr. auto.
+  - constructor.
+  - rewrite Hd. constructor.
+  - rewrite Hd. intros e [].
+  - rewrite Hd. apply (R_committed _ _ HR).
+  - rewrite Hd. apply (R_committed _ _ HR).
+  - unfold frames. rewrite Hr. auto.
+  - constructor.
+  - rewrite Hd. constructor.
+  - rewrite Hd. intros e [].
+Qed.
+
+Lemma root_do_commit_R : forall s p r, R s p -> WF s -> c_root s = Some r ->
+  exists s', root_do_commit r s = (Ok, s') /\ R s' (commit_all p) /\ same_but s s'.
+Proof.
+  intros s p r HR W Hr.
+  destruct (R_root_some _ _ _ HR Hr) as (nf & snap & Hst & Hroot & Hch & Hact & Hcl & Hnin).
+  destruct (root_tail s p r _ Commit (mkDb (work (s_db s)) (work (s_db s)) []) HR W Hr eq_refl)
+    as (s2 & s3 & A & B & Ar & C & SB & D & E & F & G).
+  exists (set_root None s3). unfold root_do_commit. rewrite Hact. unfold bind at 1. unfold finally.
+  unfold emit. cbn [exec_cmd]. unfold bind at 1. rewrite A, B.
+  split; [reflexivity|]. split.
+  - apply (R_root_end s p _ true HR); norm; auto.
+    + eapply sb_trans; [exact SB|apply sb_set_root].
+    + rewrite F, forallb_app, (R_out _ _ HR). reflexivity.
+  - eapply sb_trans; [exact SB|apply sb_set_root].
+Qed.
+
+Lemma root_close_impl_R : forall s p r t, R s p -> WF s -> c_root s = Some r ->
+  exists s', root_close_impl r t s = (Ok, s') /\ R s' (rollback_all p) /\ same_but s s'.
+Proof.
+  intros s p r t HR W Hr.
+  destruct (R_root_some _ _ _ HR Hr) as (nf & snap & Hst & Hroot & Hch & Hact & Hcl & Hnin).
+  destruct (root_tail s p r _ Rollback (mkDb (committed (s_db s)) (committed (s_db s)) []) HR W Hr eq_refl)
+    as (s2 & s3 & A & B & Ar & C & SB & D & E & F & G).
+  exists (set_root None s3). unfold root_close_impl, finally. unfold bind at 1. rewrite Hact.
+  unfold rollback_impl. rewrite Hcl. unfold emit. cbn [exec_cmd]. rewrite A.
+  unfold bind. rewrite Ar. cbn [orb]. rewrite B, C. cbn [opt_is]. rewrite Nat.eqb_refl.
+  split; [reflexivity|]. split.
+  - apply (R_root_end s p _ false HR); norm; auto.
+    + eapply sb_trans; [exact SB|apply sb_set_root].
+    + rewrite F, forallb_app, (R_out _ _ HR). reflexivity.
+  - eapply sb_trans; [exact SB|apply sb_set_root].
+Qed.
+
+(* ---- ending the innermost savepoint ---- *)
+Lemma R_top_nested : forall s p r k, R s p -> c_root s = Some r -> c_nested s = Some k ->
+  exists snap nf' rs sv1 sv2,
+    p_stack p = (k, snap) :: nf' ++ [(r, rs)] /\ saves (s_db s) = sv1 ++ (sp k s, snap) :: sv2 /\
+    chain s (prev k s) nf' sv2 /\ is_root k s = false /\ k < length (txns s) /\
+    drop_to (sp k s) (saves (s_db s)) = Some ((sp k s, snap) :: sv2) /\
+    NoDup (map fst ((sp k s, snap) :: sv2)) /\ active k s = true /\ active r s = true /\
+    c_closed s = false /\ is_root r s = true.
+Proof.
+  intros s p r k HR Hr Hk.
+  destruct (R_root_some _ _ _ HR Hr) as (nf & rs & Hst & Hroot & Hch & Hact & Hcl & Hnin).
+  rewrite Hk in Hch. inversion Hch; subst.
+  pose proof (R_names _ _ HR) as Nn.
+  match goal with H : _ ++ _ = saves (s_db s) |- _ => rewrite <- H in Nn end.
+  rewrite map_app in Nn. cbn [map fst] in Nn.
+  apply NoDup_app_head in Nn. destruct Nn as [N1 N2].
+  exists snap, fr, rs, sv1, sv2. repeat split; auto.
+  - apply drop_to_app. auto.
+  - eapply R_nested_active; eauto.
+Qed.
+
+Lemma R_nested_end : forall s p r k snap nf' rs c d' cur',
+  R s p -> c_root s = Some r -> c_nested s = Some k ->
+  p_stack p = (k, snap) :: nf' ++ [(r, rs)] ->
+  committed d' = committed (s_db s) -> work d' = cur' ->
+  chain s (prev k s) nf' (saves d') -> NoDup (map fst (saves d')) ->
+  (forall e, In e (saves d') -> In e (saves (s_db s))) ->
+  R (set_nested (prev k s) (set_active k false (add_out (c, true) (set_db d' s))))
+    (set_stack (nf' ++ [(r, rs)]) cur' p).
+Proof.
+  intros s p r k snap nf' rs c d' cur' HR Hr Hk Hst Hco Hw Hch Hnn Hin.
+  destruct (R_root_some _ _ _ HR Hr) as (nf & rs0 & Hst0 & Hroot & Hch0 & Hact & Hcl & Hnin).
+  set (s3 := set_nested _ _).
+  assert (SB : same_but s s3).
+  { unfold s3. eapply sb_trans; [apply sb_set_db|]. eapply sb_trans; [apply sb_add_out|].
+    eapply sb_trans; [apply sb_set_active|apply sb_set_nested]. }
+  pose proof (R_nodup _ _ HR) as ND. rewrite Hst in ND. cbn [map fst] in ND. apply NoDup_cons_iff in ND. destruct ND as [N1 N2].
+  apply (R_after s s3 p _ HR SB); try reflexivity.
+  - intros j. unfold s3. norm. rewrite (R_active _ _ HR). unfold live. cbn [set_stack p_stack]. rewrite Hst.
+    cbn [existsb fst]. destruct (Nat.eqb_spec j k).
+    + subst j. rewrite Nat.eqb_refl. cbn. symmetry. apply not_true_is_false. intro X.
+      change (live k (set_stack (nf' ++ [(r, rs)]) cur' p) = true) in X. apply live_in in X. auto.
+    + rewrite (proj2 (Nat.eqb_neq k j)) by auto. cbn. rewrite andb_true_r. reflexivity.
+  - cbn. rewrite <- (R_closed _ _ HR), Hcl. discriminate.
+  - unfold s3. norm. rewrite Hco. apply (R_committed _ _ HR).
+  - unfold s3. norm. auto.
+  - unfold frames, s3. norm. rewrite Hr. exists nf', rs. repeat split.
+    + norm. auto.
+    + eapply chain_sb; [exact Hch|]. exact SB.
+  - cbn. auto.
+  - unfold s3. norm. auto.
+  - unfold s3. norm. intros e He. apply (R_seq _ _ HR), Hin, He.
+  - unfold s3. norm. rewrite forallb_app, (R_out _ _ HR). reflexivity.
+Qed.
+
+Lemma below_head : forall k snap rest, below k ((k, snap) :: rest) = rest.
+Proof. intros. cbn. rewrite Nat.eqb_refl. reflexivity. Qed.
+
+Lemma commit_handle_inner : forall k p fr, below k (p_stack p) = fr -> fr <> [] ->
+  commit_handle k p = set_stack fr (p_cur p) p.
+Proof. intros. unfold commit_handle. rewrite H. destruct fr; [contradiction|reflexivity]. Qed.
+Lemma rollback_handle_inner : forall k p fr, below k (p_stack p) = fr -> fr <> [] ->
+  rollback_handle k p = set_stack fr (snap_of k (p_stack p) (p_cur p)) p.
+Proof. intros. unfold rollback_handle. rewrite H. destruct fr; [contradiction|reflexivity]. Qed.
+Lemma app_one_not_nil : forall A (l : list A) x, l ++ [x] <> [].
+Proof. intros A l x H. destruct l; discriminate. Qed.
+
+Lemma nested_do_commit_R : forall s p r k, R s p -> c_root s = Some r -> c_nested s = Some k ->
+  ctx_bad p = false ->
+  exists s', nested_do_commit k s = (Ok, s') /\ R s' (commit_handle k p) /\ same_but s s'.
+Proof.
+  intros s p r k HR Hr Hk Hb.
+  destruct (R_top_nested _ _ _ _ HR Hr Hk) as (snap & nf' & rs & sv1 & sv2 & Hst & Hsv & Hch & Hkr & Hkl & Hdrop & Hnn & Hak & Har & Hcl & Hrr).
+  unfold nested_do_commit. rewrite Hak. unfold bind at 1. unfold finally, sql. unfold bind at 1.
+  rewrite (R_guard_ok _ _ _ HR Hr Hb). unfold emit. cbn [exec_cmd]. rewrite Hdrop.
+  unfold deact_nested. norm. rewrite Hk. cbn [opt_is]. rewrite Nat.eqb_refl.
+  eexists. split; [reflexivity|]. split.
+  - rewrite (commit_handle_inner k p (nf' ++ [(r, rs)])) by (rewrite ?Hst, ?below_head; auto using app_one_not_nil).
+    norm. eapply R_nested_end; eauto; cbn [committed work saves].
+    + apply (R_work _ _ HR).
+    + inversion Hnn; auto.
+    + intros e He. rewrite Hsv. apply in_or_app. right. right. auto.
+  - norm. eapply sb_trans; [apply sb_set_db|]. eapply sb_trans; [apply sb_add_out|].
+    eapply sb_trans; [apply sb_set_active|apply sb_set_nested].
+Qed.
+
+Lemma nested_close_impl_R : forall s p r k w, R s p -> c_root s = Some r -> c_nested s = Some k ->
+  ctx_bad p = false ->
+  exists s', nested_close_impl k w s = (Ok, s') /\ R s' (rollback_handle k p) /\ same_but s s'.
+Proof.
+  intros s p r k w HR Hr Hk Hb.
+  destruct (R_top_nested _ _ _ _ HR Hr Hk) as (snap & nf' & rs & sv1 & sv2 & Hst & Hsv & Hch & Hkr & Hkl & Hdrop & Hnn & Hak & Har & Hcl & Hrr).
+  unfold nested_close_impl, finally. rewrite Hak. unfold inst_active. rewrite Hr, Har, Hcl. cbn [andb].
+  unfold sql. unfold bind at 1.
+  rewrite (R_guard_ok _ _ _ HR Hr Hb). unfold emit. cbn [exec_cmd]. rewrite Hdrop.
+  unfold bind, deact_nested. norm. rewrite Hk. cbn [opt_is]. rewrite Nat.eqb_refl.
+  eexists. split; [reflexivity|]. split.
+  - rewrite (rollback_handle_inner k p (nf' ++ [(r, rs)])) by (rewrite ?Hst, ?below_head; auto using app_one_not_nil).
+    rewrite Hst. cbn [snap_of]. rewrite Nat.eqb_refl.
+    norm. eapply R_nested_end; eauto; cbn [committed work saves].
+    + apply chain_stale. auto.
+    + intros e He. rewrite Hsv. apply in_or_app. right. auto.
+  - norm. eapply sb_trans; [apply sb_set_db|]. eapply sb_trans; [apply sb_add_out|].
+    eapply sb_trans; [apply sb_set_active|apply sb_set_nested].
+Qed.
+
+(* ---- operations on an ended handle, inside the guard ---- *)
+Lemma R_same : forall s s' p, R s p -> same_but s s' -> c_root s' = c_root s -> c_nested s' = c_nested s ->
+  s_db s' = s_db s -> (forall j, active j s' = active j s) -> forallb snd (s_out s') = true -> R s' p.
+Proof.
+  intros s s' p HR SB Hr Hn Hd Ha Ho. apply (R_after s s' p p HR SB); auto; try rewrite Hd; try apply HR.
+  - intros k. rewrite Ha. apply HR.
+  - eapply frames_sb; eauto; [apply HR|congruence].
+Qed.
+
+Lemma R_not_installed : forall s p k, R s p -> live k p = false ->
+  opt_is (c_root s) k = false /\ opt_is (c_nested s) k = false /\ active k s = false.
+Proof.
+  intros s p k HR Hl. rewrite <- (R_active _ _ HR) in Hl. repeat split; auto.
+  - destruct (c_root s) as [r|] eqn:Hr; auto. cbn. destruct (Nat.eqb_spec r k); auto. subst.
+    destruct (R_root_some _ _ _ HR Hr) as (_ & _ & _ & _ & _ & A & _). congruence.
+  - destruct (c_nested s) as [n|] eqn:Hn; auto. cbn. destruct (Nat.eqb_spec n k); auto. subst.
+    rewrite (R_nested_active _ _ _ HR Hn) in Hl. discriminate.
+Qed.
+
+Lemma R_no_nested : forall s p, R s p -> spec_in_nested p = false -> c_nested s = None.
+Proof.
+  intros s p HR Hn. destruct (c_root s) as [r|] eqn:Hr.
+  - destruct (R_root_some _ _ _ HR Hr) as (nf & snap & Hst & _ & Hch & _).
+    unfold spec_in_nested in Hn. rewrite Hst, app_length in Hn. apply Nat.ltb_ge in Hn.
+    destruct nf; [inversion Hch; auto|]. cbn in Hn. lia.
+  - apply (R_root_none _ _ HR Hr).
+Qed.
+
+Lemma dead_nested_close_R : forall s p k w, R s p -> live k p = false ->
+  exists s', nested_close_impl k w s = (Ok, s') /\ R s' p /\ same_but s s'.
+Proof.
+  intros s p k w HR Hl. destruct (R_not_installed _ _ _ HR Hl) as (A & B & C).
+  unfold nested_close_impl, finally. rewrite C. cbn [andb]. unfold bind, deact_nested. norm. rewrite B.
+  assert (SB : same_but s (set_active k false s)) by apply sb_set_active.
+  assert (Ha : forall j, active j (set_active k false s) = active j s).
+  { intros j. norm. destruct (Nat.eqb_spec j k); [subst; rewrite C; reflexivity|apply andb_true_r]. }
+  destruct w.
+  - eexists. split; [reflexivity|]. split.
+    + apply (R_same s); norm; auto using (R_out _ _ HR). eapply sb_trans; [exact SB|apply sb_add_warn].
+    + eapply sb_trans; [exact SB|apply sb_add_warn].
+  - eexists. split; [reflexivity|]. split; [|exact SB].
+    apply (R_same s); norm; auto using (R_out _ _ HR).
+Qed.
+
+Lemma dead_root_close_R : forall s p k t, R s p -> live k p = false -> spec_in_nested p = false ->
+  exists s', root_close_impl k t s = (Ok, s') /\ R s' p /\ same_but s s'.
+Proof.
+  intros s p k t HR Hl Hn. destruct (R_not_installed _ _ _ HR Hl) as (A & B & C).
+  rewrite (root_close_impl_inactive _ _ _ C). unfold finally, cancel_nested.
+  rewrite (R_no_nested _ _ HR Hn). unfold root_close_fin, bind. rewrite C. cbn [orb].
+  destruct t.
+  - unfold deact_root. rewrite C, A. unfold warn. norm. rewrite A. eexists. split; [reflexivity|]. split.
+    + apply (R_same s); norm; auto using (R_out _ _ HR), sb_add_warn.
+    + apply sb_add_warn.
+  - rewrite A. exists s. split; [reflexivity|]. split; [auto|apply sb_refl].
+Qed.
+
+Lemma dead_close_R : forall s p k (b : bool), R s p -> k < length (txns s) -> live k p = false ->
+  ok_dead_root k p = true ->
+  exists s', (if b then t_rollback k s else t_close k s) = (Ok, s') /\ R s' p /\ same_but s s'.
+Proof.
+  intros s p k b HR Hk Hl Hg. unfold t_rollback, t_close. rewrite (R_kinds _ _ HR k Hk).
+  unfold ok_dead_root in Hg. rewrite Hl in Hg. cbn [orb] in Hg.
+  destruct (kind_root k p); cbn in Hg.
+  - apply negb_true_iff in Hg. destruct b; apply dead_root_close_R; auto.
+  - destruct b; apply dead_nested_close_R; auto.
+Qed.
+
+(* ---- ending a live handle inside the guard ---- *)
+Lemma below_in_nonnil : forall k nf x, In k (map fst nf) -> below k (nf ++ [x]) <> [].
+Proof.
+  induction nf as [|[j sn] nf]; cbn; intros x H; [contradiction|].
+  destruct (Nat.eqb_spec j k); [apply app_one_not_nil|]. destruct H; [contradiction|auto].
+Qed.
+
+Inductive live_case (s : st) (p : spec) (k : nat) : Prop :=
+| lc_root : c_root s = Some k -> is_root k s = true -> below k (p_stack p) = [] -> live_case s p k
+| lc_top : forall r, c_root s = Some r -> c_nested s = Some k -> is_root k s = false ->
+    ctx_bad p = false -> live_case s p k.
+
+Lemma live_cases : forall s p k, R s p -> live k p = true -> ok_end k p = true -> live_case s p k.
+Proof.
+  intros s p k HR Hl Hg. destruct (c_root s) as [r|] eqn:Hr.
+  2:{ destruct (R_root_none _ _ HR Hr) as [Hst _]. unfold live in Hl. rewrite Hst in Hl. discriminate. }
+  destruct (R_root_some _ _ _ HR Hr) as (nf & rs & Hst & Hroot & Hch & Hact & Hcl & Hnin).
+  destruct (Nat.eq_dec k r) as [->|Hne].
+  - apply lc_root; auto. rewrite Hst. apply below_last. auto.
+  - assert (Hin : In k (map fst nf)).
+    { apply live_in in Hl. rewrite Hst, map_app in Hl. apply in_app_or in Hl. destruct Hl as [|[|[]]]; auto.
+      cbn in H. congruence. }
+    unfold ok_end in Hg. rewrite Hl in Hg. cbn [negb orb] in Hg.
+    unfold is_root_frame in Hg. rewrite Hst in Hg.
+    pose proof (below_in_nonnil k nf (r, rs) Hin) as Hb.
+    destruct (below k (nf ++ [(r, rs)])); [contradiction|]. cbn [orb] in Hg.
+    apply andb_true_iff in Hg. destruct Hg as [Ht Hc]. apply negb_true_iff in Hc.
+    unfold top_is in Ht. rewrite Hst in Ht. destruct nf as [|[j sn] nf]; [contradiction|].
+    cbn in Ht. apply Nat.eqb_eq in Ht. subst j. inversion Hch; subst.
+    eapply lc_top; eauto.
+Qed.
+
+Lemma live_commit_R : forall s p k, R s p -> WF s -> live k p = true -> ok_end k p = true ->
+  exists s', t_commit k s = (Ok, s') /\ R s' (commit_handle k p) /\ same_but s s'.
+Proof.
+  intros s p k HR W Hl Hg. destruct (live_cases _ _ _ HR Hl Hg) as [Hr Hk Hb|r Hr Hn Hk Hb];
+    unfold t_commit; rewrite Hk.
+  - unfold commit_handle. rewrite Hb. apply root_do_commit_R; auto.
+  - eapply nested_do_commit_R; eauto.
+Qed.
+
+Lemma live_close_R : forall s p k (b : bool), R s p -> WF s -> live k p = true -> ok_end k p = true ->
+  exists s', (if b then t_rollback k s else t_close k s) = (Ok, s') /\ R s' (rollback_handle k p) /\ same_but s s'.
+Proof.
+  intros s p k b HR W Hl Hg. destruct (live_cases _ _ _ HR Hl Hg) as [Hr Hk Hb|r Hr Hn Hk Hb];
+    unfold t_rollback, t_close; rewrite Hk.
+  - unfold rollback_handle. rewrite Hb. destruct b; apply root_close_impl_R; auto.
+  - destruct b; eapply nested_close_impl_R; eauto.
+Qed.
+
+(* ---- remaining state changes ---- *)
+Lemma R_insert : forall s q v, R s q ->
+  R (set_db (db_insert 0%N [v] (s_db s)) s) (set_stack (p_stack q) (tbl_insert 0%N [v] (p_cur q)) q).
+Proof.
+  intros s q v HR. apply (R_after s _ q _ HR (sb_set_db _ s)); try reflexivity; norm; cbn [db_insert committed work saves];
+    try apply HR.
+  - rewrite (R_work _ _ HR). reflexivity.
+  - pose proof (R_frames _ _ HR) as F. unfold frames in *. norm. destruct (c_root s); auto.
+    destruct F as (nf & snap & A & B & C). exists nf, snap. repeat split; auto.
+    cbn [db_insert saves]. eapply chain_sb; eauto. apply sb_set_db.
+Qed.
+
+Definition close_spec (q : spec) : spec :=
+  mkP (p_committed q) (p_cur q) (p_stack q) (p_kinds q) (p_ctx q) true.
+
+Lemma R_set_closed : forall s q, R s q -> p_stack q = [] -> R (set_closed true s) (close_spec q).
+Proof.
+  intros s q HR Hst. pose proof HR as []. constructor; cbn [close_spec p_committed p_cur p_stack p_kinds p_ctx p_closed].
+  - norm. exact R_len0.
+  - intros k Hk. norm. norm in Hk. apply R_kinds0. exact Hk.
+  - intros k. norm. apply R_active0.
+  - norm. auto.
+  - auto.
+  - norm. auto.
+  - norm. auto.
+  - unfold frames in *. norm. cbn [p_stack close_spec]. destruct (c_root s); auto.
+    destruct R_frames0 as (nf & snap & A & B & C). exists nf, snap. repeat split; auto.
+    eapply chain_ext; eauto; intros; norm; auto.
+  - auto.
+  - norm. auto.
+  - intros e H. norm. norm in H. auto.
+  - norm. eapply ctxrel_ext; eauto; intros; norm; auto.
+  - intros k Hk. norm. norm in Hk. auto.
+  - norm. auto.
+Qed.
+
+Definition enter_spec (k : nat) (p : spec) : spec :=
+  mkP (p_committed p) (p_cur p) (p_stack p) (p_kinds p) (k :: p_ctx p) (p_closed p).
+Definition exit_spec (q : spec) : spec :=
+  mkP (p_committed q) (p_cur q) (p_stack q) (p_kinds q) (tl (p_ctx q)) (p_closed q).
+
+Lemma R_enter : forall s p k, R s p -> k < length (txns s) -> existsb (Nat.eqb k) (p_ctx p) = false ->
+  R (set_ctx (Some k) (upd_txn k (set_ctx_t true (c_ctx s)) s)) (enter_spec k p).
+Proof.
+  intros s p k HR Hk Hin. pose proof HR as [].
+  assert (Hnin : ~ In k (p_ctx p)) by (intro X; apply existsb_in in X; congruence).
+  constructor; cbn [enter_spec p_committed p_cur p_stack p_kinds p_ctx p_closed].
+  - norm. exact R_len0.
+  - intros j Hj. norm. norm in Hj. apply R_kinds0. exact Hj.
+  - intros j. norm. apply R_active0.
+  - norm. exact R_closed0.
+  - exact R_closed_empty0.
+  - norm. auto.
+  - norm. auto.
+  - unfold frames in *. norm. cbn [p_stack enter_spec]. destruct (c_root s); auto.
+    destruct R_frames0 as (nf & snap & A & B & C). exists nf, snap. repeat split; auto.
+    + norm. auto.
+    + eapply chain_ext; eauto; intros; norm; auto.
+  - auto.
+  - norm. auto.
+  - intros e H. norm. norm in H. auto.
+  - norm. constructor; [norm; auto|auto|].
+    rewrite outer_set_ctx, outer_set_ctx_t_same by auto.
+    eapply ctxrel_ext; [exact R_ctx0|norm; lia|].
+    intros j Hj. rewrite outer_set_ctx, outer_set_ctx_t_other; auto. intro; subst; auto.
+  - intros j Hj. norm in Hj. cbn [existsb]. destruct (Nat.eqb_spec j k).
+    + subst. rewrite subject_set_ctx, subject_set_ctx_t_same by auto. reflexivity.
+    + rewrite subject_set_ctx, subject_set_ctx_t_other by auto. cbn. apply R_subject0. auto.
+  - norm. auto.
+Qed.
+
+Lemma R_exit_fin : forall s q k l, R s q -> p_ctx q = k :: l ->
+  R (upd_txn k (set_ctx_t false None) (set_ctx (outer k s) s)) (exit_spec q).
+Proof.
+  intros s q k l HR Hc. pose proof HR as [].
+  rewrite Hc in R_ctx0. inversion R_ctx0; subst.
+  constructor; cbn [exit_spec p_committed p_cur p_stack p_kinds p_ctx p_closed].
+  - norm. exact R_len0.
+  - intros j Hj. norm. norm in Hj. apply R_kinds0. exact Hj.
+  - intros j. norm. apply R_active0.
+  - norm. exact R_closed0.
+  - exact R_closed_empty0.
+  - norm. auto.
+  - norm. auto.
+  - unfold frames in *. norm. cbn [p_stack exit_spec]. destruct (c_root s); auto.
+    destruct R_frames0 as (nf & snap & A & B & C). exists nf, snap. repeat split; auto.
+    + norm. auto.
+    + eapply chain_ext; eauto; intros; norm; auto.
+  - auto.
+  - norm. auto.
+  - intros e H. norm. norm in H. auto.
+  - rewrite Hc. cbn [tl]. norm.
+    eapply ctxrel_ext; [eassumption|norm; lia|].
+    intros j Hj. rewrite outer_set_ctx_t_other; norm; auto. intro; subst; auto.
+  - intros j Hj. norm in Hj. rewrite Hc. cbn [tl]. destruct (Nat.eqb_spec j k).
+    + subst. rewrite subject_set_ctx_t_same by (norm; auto). symmetry. apply not_true_is_false.
+      intro X. apply existsb_in in X. auto.
+    + rewrite subject_set_ctx_t_other by auto. norm. rewrite (R_subject0 j Hj), Hc. cbn.
+      rewrite (proj2 (Nat.eqb_neq j k)) by auto. reflexivity.
+  - norm. auto.
+Qed.
